@@ -99,3 +99,8 @@ SPECS += [
          result=["ok", "local", "self.sock_list"]),
 ]
 SMALL_INT = SMALL_INT + ("socks_insert",)
+SPECS += [
+    Spec(GROUP, "decide_whole1", "toy.py", "decide_whole", [("data", BYTES)], expr="len(data) == 1", nth=1, whole=True, ret=BOOL),
+    Spec(GROUP, "decide_whole2", "toy.py", "decide_whole", [("data", BYTES), ("flag", BOOL)], expr="len(data) == 1 or flag",
+         whole=True, ret=BOOL),
+]
